@@ -44,6 +44,14 @@ def strip_casts(n):
     return n
 
 
+def cast_targets(n):
+    out = []
+    while isinstance(n, tuple) and n and n[0] == "cast" and n[1] == "IntToInt":
+        out.append(n[3] if len(n) > 3 else None)
+        n = n[2]
+    return out
+
+
 def accessor_reads(F, inst):
     """(offset, width, leaf type, shape) of a simple field accessor, shape in {'value','ref','cast'}; None if not simple"""
     from . import an
@@ -52,8 +60,10 @@ def accessor_reads(F, inst):
         return None
     n = N(rt)
     shape = "value"
+    targets = []
     if n[0] == "cast" and n[1] == "IntToInt":
         shape = "cast"
+        targets = cast_targets(n)
         n = strip_casts(n)
     if n[0] == "ref":
         shape = "ref"
@@ -61,4 +71,10 @@ def accessor_reads(F, inst):
     r = resolve_path(F, self_type(inst), n)
     if r is None:
         return None
+    if targets and r[1] is not None:
+        # every integer cast on the way out must keep the stored value: a target narrower than the field
+        # (`self.header.size as u8 as usize`) returns only part of it
+        from .terms import INT_BITS
+        if any(t_ in INT_BITS and INT_BITS[t_] < 8 * r[1] for t_ in targets):
+            return None
     return r + (shape,)
